@@ -668,7 +668,7 @@ func init() {
 			if tier == "thorough" {
 				return 20000
 			}
-			return 1500
+			return 3000
 		},
 		ChunkSize:   50,
 		Rule:        "each case is a connect history: a word of 1-7 attempts over {dial fails, CONNECT write fails at byte b, CONNACK cut by EOF after 0-3 bytes, CONNACK with return code 1-255, CONNACK with reserved flag bits, session-present on a clean-session request, a non-CONNACK first packet, resend fails at byte b, success}, ending in success, with connection loss between successes, over valid Configs of the C09 generator (will, credentials, keep-alive, clean session, client identifier) and 0-4 transfers pending from before; a request (Publish, Subscribe, Ping or a persisted publish) is issued inside a chosen phase of an attempt (Dialer blocked, CONNACK read blocked, first resend write blocked; held 0.5 ms or 60 ms) or right after it. The read loop is granted one ReadSlices per attempt. Oracle per connection: first packet equals the reference CONNECT of Config and stored client identifier, clean-session flag only while no earlier connection got an accepting CONNACK; no byte after CONNECT before the accepting CONNACK was delivered, none at all without one; refused => IsConnectionRefused carrying the code; every failed attempt closed its connection and gave a ReadSlices error with non-nil ReadBackoff; pending transfers are resent completely and in order before anything new (C01's resend oracle). Requests: not returned before the attempt's outcome (trace order), nil after success, ErrDown after failure; persisted publishes never refused and completed by the final connection. Non-trivial: at least one failed and one successful attempt; distinct by the word of attempt kinds.",
